@@ -98,13 +98,45 @@ func RichTable(t *rapid.T, o RichOpts) script.Table {
 	return tb
 }
 
+var sqlPieces = []string{"select ", "$1", "$2", "$", "$$", "$tag$", "?", "'", "''", "\"", "/*", "*/", "/", "*", "--", "-", "\n", "E'", "\\", "\\'", " ", "a", "$0", "$65536", "$99999999999999999999", ";", "(", ")", "/* /* */", "'$1'", "\"$2\"", "-- $3\n", "/* $4 */", "\xff", "１", "$１", "$1２"}
+
 var richStmtNames = []string{"", "a", "b", "zz"}
 var richPortalNames = []string{"", "p", "q", "zz"}
 
 // Malform applies one malformation operator to a well-formed typed frame.
 func Malform(t *rapid.T, frame []byte) []byte {
 	body := frame[5:]
-	switch rapid.IntRange(0, 7).Draw(t, "malform") {
+	switch rapid.IntRange(0, 9).Draw(t, "malform") {
+	case 8: // a 32-bit word somewhere in the body replaced by a hostile value (value lengths, counts, OIDs)
+		if len(body) >= 4 {
+			b := append([]byte{}, body...)
+			at := rapid.IntRange(0, len(b)-4).Draw(t, "word-at")
+			v := rapid.SampledFrom([]uint32{0x80000000, 0x80000001, 0xFFFFFFFE, 0x7FFFFFFF, 0xFFFFFF00, 0x00010000}).Draw(t, "word")
+			b[at], b[at+1], b[at+2], b[at+3] = byte(v>>24), byte(v>>16), byte(v>>8), byte(v)
+			return pgwire.Msg(frame[0], b)
+		}
+	case 9: // Bind: the length word of the first parameter value
+		if frame[0] == 'B' {
+			b := append([]byte{}, body...)
+			// portal\0 statement\0 int16 nformats, formats, int16 nparams, int32 length ...
+			i := 0
+			for k := 0; k < 2 && i < len(b); k++ {
+				for i < len(b) && b[i] != 0 {
+					i++
+				}
+				i++
+			}
+			if i+2 <= len(b) {
+				nf := int(b[i])<<8 | int(b[i+1])
+				i += 2 + 2*nf
+				if i+2 <= len(b) && (int(b[i])<<8|int(b[i+1])) > 0 && i+6 <= len(b) {
+					i += 2
+					v := rapid.SampledFrom([]uint32{0x80000000, 0x80000004, 0xFFFFFFFE, 0x7FFFFFFF, 0xFFFFFFF0}).Draw(t, "param-len")
+					b[i], b[i+1], b[i+2], b[i+3] = byte(v>>24), byte(v>>16), byte(v>>8), byte(v)
+					return pgwire.Msg(frame[0], b)
+				}
+			}
+		}
 	case 0: // declared length shorter than the body
 		if len(body) > 0 {
 			k := rapid.IntRange(1, len(body)).Draw(t, "short-by")
@@ -166,7 +198,23 @@ func Rich(t *rapid.T, o RichOpts) play.History {
 		max = 25
 	}
 	n := rapid.IntRange(1, max).Draw(t, "nmsgs")
-	q := func() string { return rapid.SampledFrom(QueryNames).Draw(t, "query") }
+	q := func() string {
+		if o.Helpers && rapid.IntRange(0, 5).Draw(t, "sql-ish-text?") == 0 {
+			// client controlled text that reaches ParseParameters through the default outcome: pieces
+			// of SQL lexical structure (quotes, comments, dollar signs, placeholders) in any order,
+			// terminated or not
+			var sb strings.Builder
+			for i, n := 0, rapid.IntRange(1, 8).Draw(t, "sql-pieces"); i < n; i++ {
+				sb.WriteString(rapid.SampledFrom(sqlPieces).Draw(t, "sql-piece"))
+			}
+			if rapid.IntRange(0, 2).Draw(t, "open-at-end?") == 0 {
+				// a construct that is opened and never closed, the text ending right inside it
+				sb.WriteString(rapid.SampledFrom([]string{"/*", "/* *", "/*/", "/* /* */ *", "'", "' '' ", "\"", "--", "$tag$ $1", "E'\\", "$"}).Draw(t, "open-tail"))
+			}
+			return sb.String()
+		}
+		return rapid.SampledFrom(QueryNames).Draw(t, "query")
+	}
 	params := func() []*[]byte {
 		var ps []*[]byte
 		for i, k := 0, rapid.IntRange(0, 3).Draw(t, "nparams"); i < k; i++ {
@@ -265,6 +313,16 @@ func Rich(t *rapid.T, o RichOpts) play.History {
 				body := make([]byte, h.Cfg.Limit+rapid.IntRange(1, 600).Draw(t, "over"))
 				m = script.CMsg{K: "raw", Over: true, Data: pgwire.Msg(rapid.SampledFrom([]byte{'Q', 'P', 'B', 'd'}).Draw(t, "over-type"), body)}
 			}
+		case k == 23 && o.Malformed && rapid.IntRange(0, 3).Draw(t, "hostile-bind?") == 0:
+			// a Bind whose first parameter declares a hostile length (sign bit set, just below 2^32, far
+			// beyond the message), everything else well formed
+			v := []byte("value")
+			frame := script.CMsg{K: "B", Portal: rapid.SampledFrom(richPortalNames).Draw(t, "portal"), Name: rapid.SampledFrom(richStmtNames).Draw(t, "stmt"), Params: []*[]byte{&v}}.Bytes()
+			body := append([]byte{}, frame[5:]...)
+			at := len(body) - 2 - len(v) - 4 // ... int32 length, value, int16 nresultformats
+			w := rapid.SampledFrom([]uint32{0x80000000, 0x80000004, 0xFFFFFFFE, 0x7FFFFFFF, 0xFFFFFFF0, 6, 4}).Draw(t, "param-len")
+			body[at], body[at+1], body[at+2], body[at+3] = byte(w>>24), byte(w>>16), byte(w>>8), byte(w)
+			m = script.CMsg{K: "raw", Data: pgwire.Msg('B', body)}
 		case k == 23 && o.Malformed:
 			base := script.CMsg{K: rapid.SampledFrom([]string{"Q", "P", "B", "D", "E", "C"}).Draw(t, "mal-kind"), Query: q(), Name: "a", Portal: "p", Kind: 'S', Params: params()}
 			m = script.CMsg{K: "raw", Data: Malform(t, base.Bytes())}
